@@ -46,6 +46,8 @@ type Exec struct {
 	EvalSamples  []string
 	orphans      []*State
 	inInit       bool
+	initPkg      *ssa.Package
+	CmdPkg       *ssa.Package
 	globalIdx    map[*ssa.Global]int
 }
 
@@ -74,7 +76,7 @@ type forkReq struct {
 
 // NewState creates the initial state positioned at the entry of fn.
 func (ex *Exec) NewState(fn *ssa.Function) *State {
-	s := &State{Heap: map[int]Value{}, Counters: map[string]int{}, Reached: map[string]bool{}, Unwind: 64, Prune: true, StateFnCt: map[string]int{}}
+	s := &State{Heap: map[int]Value{}, Counters: map[string]int{}, Reached: map[string]bool{}, Unwind: 64, Prune: true, StateFnCt: map[string]int{}, CLIExit: -1}
 	fr := &Frame{Fn: fn, Env: map[ssa.Value]Value{}}
 	s.Gs = []*Goroutine{{Stack: []*Frame{fr}, Name: "main"}}
 	ex.enterBlock(s, fr, nil, fn.Blocks[0])
@@ -88,10 +90,27 @@ func (ex *Exec) Run(fn *ssa.Function) []*State {
 	// packages are not executed (their variables are only reached through
 	// modelled functions)
 	var s *State
-	if init := ex.Pkg.Func("init"); init != nil && len(init.Blocks) > 0 {
-		s = ex.NewState(init)
+	pkgs := []*ssa.Package{ex.Pkg}
+	if fn.Pkg != nil && fn.Pkg != ex.Pkg {
+		pkgs = append(pkgs, fn.Pkg)
+	}
+	for _, p := range pkgs {
+		init := p.Func("init")
+		if init == nil || len(init.Blocks) == 0 {
+			continue
+		}
+		if s == nil {
+			s = ex.NewState(init)
+		} else {
+			fr := &Frame{Fn: init, Env: map[ssa.Value]Value{}}
+			s.Gs = []*Goroutine{{Stack: []*Frame{fr}, Name: "main"}}
+			s.Cur = 0
+			s.Done = false
+			ex.enterBlock(s, fr, nil, init.Blocks[0])
+		}
 		s.Prune = true
 		ex.inInit = true
+		ex.initPkg = p
 		outs := ex.runTo(s, 0, 1, nil)
 		ex.inInit = false
 		var live []*State
@@ -104,9 +123,12 @@ func (ex *Exec) Run(fn *ssa.Function) []*State {
 			panic(unsupported(fmt.Sprintf("package initialisation produced %d states", len(live))))
 		}
 		s = live[0]
+	}
+	if s != nil {
 		s.Done = false
 		s.Oblig = nil
 		s.Steps = 0
+		s.SharedWrites = nil
 		fr := &Frame{Fn: fn, Env: map[ssa.Value]Value{}}
 		s.Gs = []*Goroutine{{Stack: []*Frame{fr}, Name: "main"}}
 		s.Cur = 0
